@@ -1,5 +1,6 @@
 import SeqVerif.Model.BulkTime
 import SeqVerif.Model.BulkConfig
+import SeqVerif.Model.BulkID
 import SeqVerif.Extracted.C10T
 /-!
 # C10 - hand models = mechanical translations of the Go source (regenerated on every run)
@@ -40,5 +41,11 @@ theorem c10_t_setDefaults (c : SV.Bulk.ProxyCfg) :
   unfold T.IngestorConfig_setDefaults SV.Bulk.setDefaults
   by_cases h1 : c.searchTimeout = 0 <;> by_cases h2 : c.exportTimeout = 0 <;> by_cases h3 : c.maxInflightBulks = 0 <;>
     simp [h1, h2, h3]
+
+/-- `seq.NewID(t, randomness)` = `BulkTime.newID`: the MID is `TimeToMID(t)`, the RID is the caller's uint64 unchanged -/
+theorem c10_t_NewID (t : Int) (r : Nat) (hr : r < 18446744073709551616) :
+    T.NewID t r = (((newID t r).1 : Int), ((newID t r).2 : Int)) := by
+  unfold T.NewID newID
+  simp only [← c10_t_TimeToMID, Nat.mod_eq_of_lt hr]
 
 end SV.Props.C10
